@@ -192,6 +192,8 @@ class Rows(cx.Ext):
         self.rows = rows
 
     def cx_getitem(self, it, key):
+        if isinstance(key, int) and not isinstance(key, bool):
+            key = (key, slice(None, None, None))          # w[n] is the row w[n, :]
         if isinstance(key, tuple) and len(key) == 2 and isinstance(key[0], int) and key[1] == slice(None, None, None):
             if not 0 <= key[0] < len(self.rows):
                 raise cx._Raise(cx.ExcVal('IndexError'))
@@ -199,6 +201,8 @@ class Rows(cx.Ext):
         return NotImplemented
 
     def cx_setitem(self, it, key, value):
+        if isinstance(key, int) and not isinstance(key, bool):
+            key = (key, slice(None, None, None))
         if isinstance(key, tuple) and len(key) == 2 and isinstance(key[0], int) and key[1] == slice(None, None, None) \
                 and 0 <= key[0] < len(self.rows):
             if isinstance(value, PW):
